@@ -604,7 +604,40 @@ def r27_5(ctx):
                         if y.get('k') == 'MemberExpr' and y.get('dk') == 'Field' and (y.get('n') or '').startswith(f['cls'] + '::') and (y.get('a') or 'r') not in ('r', 'a'):
                             hits.setdefault((f['name'], y['n']), (f, y['l'], 'writes %s' % y['n']))
     ctx.floor('R27.5 branches controlled by an option test in lib/check*.cpp', nbranches, 100)
+
+    # a hit counts only when the state is also used outside option-controlled branches (state that only ever feeds the optional reports is harmless)
+    def used_outside(cls, fields):
+        for g in F.all_fns():
+            if g.get('cls') != cls or not g['file'].startswith('lib/check'):
+                continue
+            gb = F.body(g)
+            if gb is None:
+                continue
+            direct = [a for a in g['acc'] if a['n'] in fields]
+            if direct and len(list(walk(gb['body']))) < 40:
+                continue            # the accessor itself
+            ol = {v['di'] for v in walk(gb['body']) if v.get('k') == 'VarDecl' and v.get('init') is not None and 'bool' in (v.get('t') or '') and is_opt(v['init'], ())}
+            guarded = set()
+            for x in walk(gb['body']):
+                if x.get('k') == 'IfStmt' and x.get('cond') is not None and is_opt(x['cond'], ol):
+                    for br in (x.get('then'), x.get('else')):
+                        for y in walk(br or {}):
+                            guarded.add(id(y))
+            for y in walk(gb['body']):
+                if id(y) in guarded:
+                    continue
+                if y.get('k') == 'MemberExpr' and y.get('n') in fields:
+                    return '%s line %s' % (g['name'], y['l'])
+                if y.get('k') == 'CXXMemberCallExpr' and y.get('fid') in writers and set(writers[y['fid']][1]) & set(fields):
+                    return '%s line %s' % (g['name'], y['l'])
+        return None
     for (fname, what), (f, line, text) in sorted(hits.items()):
+        fields = writers[[k for k, (g, w) in writers.items() if g['name'] == what][0]][1] if '::' in what and any(g['name'] == what for g, w in writers.values()) else [what]
+        outside = used_outside(f['cls'], set(fields))
+        if outside is None:
+            ctx.note('R27.5: %s %s at line %s under an option test; the state is used only inside option-controlled branches (not armed)' % (fname, text, line))
+            continue
+        text += '; the same state is used outside option-controlled branches (%s)' % outside
         ctx.ob('R27.5', 'state-under-option:%s:%s' % (fname, what.split('::')[-1]), False,
                '%s %s at line %s inside a branch controlled by a severity / certainty test: later reports of the check that read this state change when the option is enabled'
                % (fname, text, line), '%s:%s' % (f['file'], line))
